@@ -150,6 +150,7 @@ type Env struct {
 	depth    int
 	oldMode  bool
 	callerSide bool
+	loopPre  *State   // state at the entry of the innermost loop (for atentry(...))
 	qvars    []string // "(name sort)" of enclosing quantifier variables
 	qnames   []string
 	visitedSet string
